@@ -439,7 +439,8 @@ Proof. intros I. destruct o; cbn [step].
   - cbn. apply istep_scalar; reflexivity.
   - cbn. apply istep_scalar; reflexivity.
   - cbn. apply istep_scalar; reflexivity.
-  - apply do_work_istep; auto. Qed.
+  - apply do_work_istep; auto.
+  - unfold do_close_handle. destruct k; try (cbn; apply istep_scalar; reflexivity); destruct (user_obj _ r s); cbn; apply istep_scalar; reflexivity. Qed.
 
 (* closed: no subscription registered, so no image left *)
 Lemma closed_no_images s : inv s -> closed s = true -> forall r, sub_images r s = [].
